@@ -183,9 +183,50 @@ def post(outs, events):
     return stats, recs, outcomes
 
 
+def end_to_end_loudness(rep, tier):
+    """"Fails loudly" holds for the JOB, not only for the C++: when the analysis step dies (which is what the First() /
+    index exception does to it), the rendered runner.sh - run unmodified in the script sandbox of C16, every history of
+    builds and earlier successful runs - must exit non-zero and must not deliver an output for that run."""
+    import shutil
+    from mc.checks import c16
+    from mc.core import par
+    from mc.core.translate import translate
+    from mc.sandbox.box import build_macro
+    work, macro_dirs = [], []
+    hists = [["full"], ["d-o"], ["full", "r"], ["full", "r-d-o"], ["c", "r-d-o", "r-d2-o2"], ["full", "r-d-o", "r-d-o"], ["c", "r", "r-o-file"]]
+    if tier != "quick":
+        hists += [["full", "r", "r", "r-d2-o2"], ["c", "r-d-o", "r-d2-o2", "r-d-o"], ["full", "full"], ["c", "c-r", "r"]]
+    for backend in ("atlas", "cms_aod", "cms_miniaod"):
+        a = qgen.ALPHA[backend]
+        pkg = translate(f"ds.Select(lambda e: e.{a.primary}('A').Where(lambda j: j.pt() > 1).First().pt())", backend)
+        if not pkg.ok:
+            raise RuntimeError(f"harness: cannot render the First() package for {backend}: {pkg.exc_msg}")
+        md = build_macro(pkg.files)
+        if md is not None:
+            macro_dirs.append(md)
+        for h in hists:
+            work.append((backend, dict(pkg.files), h, "any", str(md) if md else None))
+    n = 0
+    runs = 0
+    try:
+        for stats, bad, outcomes in par.pmap(c16.explore, work):
+            runs += stats["fault_runs"]
+            for b in bad:
+                if b.get("failed_tool") not in c16.JOB_TOOLS:
+                    continue          # other steps are C16's business
+                n += 1
+                rep.violation(f"{b['backend']}-e2e-{n}", f"silent-job-failure [{b['backend']}] history {b['history']} invocation #{b['at']}: the analysis job fails "
+                              f"(as on an event where First() is empty) but {b['problem']}", dict(b, symptom="silent-job-failure", kind="end-to-end", query="(runner.sh)"))
+    finally:
+        for d in macro_dirs:
+            shutil.rmtree(d, ignore_errors=True)
+    return runs
+
+
 def main(tier="quick"):
     rep = Report(PROP, tier)
     known = F.load(PROP)
+    e2e_runs = end_to_end_loudness(rep, tier)
     events = event_domain(2, 1)
     cases = []
     pid = 0
@@ -224,6 +265,7 @@ def main(tier="quick"):
     rep.set("states", len(cases))
     rep.set("transitions", len(cases))
     rep.set("traces_validated_against_impl", stats["executions"])
+    stats["end_to_end_fault_runs"] = e2e_runs
     rep.set("counters", dict(stats))
     rep.set("distinct_outcome_kinds", sorted(outcomes))
     rep.set("events_in_domain", len(events))
@@ -231,6 +273,7 @@ def main(tier="quick"):
     rep.sample({"kind": cases[-1].info["kind"], "query": cases[-1].text})
     rep.assumptions += ["a null link dereference is observed through a poisoned Ref (NULLDEREF), never as undefined behaviour",
                         "queries whose Python meaning depends on lazy-vs-eager evaluation are skipped per event (counted)",
+                        "end to end: a job step that dies is modelled by the C16 script sandbox failing the job tool (python / cmsRun) at each of its occurrences in each history",
                         "any loud failure (exception / failed status / null-dereference report) counts as 'fails loudly'; a NULLDEREF where the query never touches a null link is a violation"]
     return rep.finish(require={"traces_validated_against_impl": 5000, "faults_agreed": 0})
 
